@@ -125,6 +125,9 @@ func drawMgr(s src) mgrSpec {
 		default: // around the 32-bit boundaries
 			x = []uint32{0, 1, 2, 1 << 31, 1<<31 - 1, 1<<31 + 1, math.MaxUint32, math.MaxUint32 - 1, math.MaxUint32 - 2, 1 << 16, 255, 256, 65535}[s.Intn(13, "num")]
 		}
+		for set[x] {
+			x++ // (also keeps the loop finite when a fuzz input is exhausted)
+		}
 		set[x] = true
 	}
 	nums := make([]uint32, 0, n)
